@@ -1145,6 +1145,70 @@ M("r4-fresh-reg-no-bump", "C10", "fire R4", "src/register_circuit.rs",
         }""", "fresh registers are handed out twice")
 
 # ---------------------------------------------------------------- C13
+M("j7-fold", "C13", "quiet", "src/circuit.rs",
+  """        let mut is_eq = 1;
+        for (&x, &y) in x.iter().zip(y) {
+            let bits_eq = self.push_eq(x, y);
+            is_eq = self.push_and(is_eq, bits_eq)
+        }
+        is_eq""",
+  """        x.iter().zip(y).fold(1, |is_eq, (&x, &y)| {
+            let bits_eq = self.push_eq(x, y);
+            self.push_and(is_eq, bits_eq)
+        })""", "same conjunction as a fold")
+M("j7-fold-skips-and", "C13", "fire J7", "src/circuit.rs",
+  """        let mut is_eq = 1;
+        for (&x, &y) in x.iter().zip(y) {
+            let bits_eq = self.push_eq(x, y);
+            is_eq = self.push_and(is_eq, bits_eq)
+        }
+        is_eq""",
+  """        x.iter().zip(y).fold(1, |is_eq, (&x, &y)| {
+            let bits_eq = self.push_eq(x, y);
+            if x == y { is_eq } else { self.push_and(is_eq, bits_eq) }
+        })""", "fold step can leave the comparison out")
+M("j5-sorter2-map-unzip", "C13", "quiet", "src/circuit.rs",
+  """        let mut min = vec![];
+        let mut max = vec![];
+        for (x, y) in x.iter().zip(y.iter()) {
+            let (a, b) = self.push_condswap(gt, *x, *y);
+            min.push(a);
+            max.push(b);
+        }
+        (min, max)""",
+  """        x.iter()
+            .zip(y.iter())
+            .map(|(&x, &y)| self.push_condswap(gt, x, y))
+            .unzip()""", "same 2-sorter with map / unzip")
+M("j5-sorter2-map-unzip-crossed", "C13", "fire J5", "src/circuit.rs",
+  """        let mut min = vec![];
+        let mut max = vec![];
+        for (x, y) in x.iter().zip(y.iter()) {
+            let (a, b) = self.push_condswap(gt, *x, *y);
+            min.push(a);
+            max.push(b);
+        }
+        (min, max)""",
+  """        x.iter()
+            .zip(y.iter())
+            .map(|(&x, &y)| self.push_condswap(gt, y, x))
+            .unzip()""", "condswap operands crossed in the closure")
+M("j5-sorter2-map-unzip-pair-swapped", "C13", "fire J5", "src/circuit.rs",
+  """        let mut min = vec![];
+        let mut max = vec![];
+        for (x, y) in x.iter().zip(y.iter()) {
+            let (a, b) = self.push_condswap(gt, *x, *y);
+            min.push(a);
+            max.push(b);
+        }
+        (min, max)""",
+  """        x.iter()
+            .zip(y.iter())
+            .map(|(&x, &y)| {
+                let (a, b) = self.push_condswap(gt, x, y);
+                (b, a)
+            })
+            .unzip()""", "closure answers (max, min)")
 M("j1-guard-tag-b-only", "C13", "fire J1", "src/compile.rs",
   """        let tags_differ = circuit.push_xor(tag_a, tag_b);
         join_eq = circuit.push_and(join_eq, tags_differ);""",
@@ -2453,16 +2517,18 @@ M2("revert-range-bounds-gate", "C09", "fire L1 L11", [
 """, ""),
   ], "pre-fix form of 8247efd: range ends never compared with the max of the element type")
 M("revert-range-num-type", "C05", "fire S12", "src/check.rs",
-  """                *num_ty = *expected;
+  """                *num_ty = lowered_as;
                 if let Type::Array(actual, _) | Type::ArrayConst(actual, _) = &mut expr.ty {""",
-  """                if let Type::Array(actual, _) | Type::ArrayConst(actual, _) = &mut expr.ty {""", "pre-fix form of 8247efd: `0..3` as [u8; 3] keeps the unspecified number type in the node")
+  """                let _ = lowered_as;
+                if let Type::Array(actual, _) | Type::ArrayConst(actual, _) = &mut expr.ty {""", "pre-fix form of 8247efd: `0..3` as [u8; 3] keeps the unspecified number type in the node")
 M("l11-untyped-range-unchecked", "C09", "fire L11", "src/check.rs",
-  """                if expected.max().is_some_and(|max| *to > *from && *to - 1 > max) {
+  """                if max.is_some_and(|max| *to > *from && *to - 1 > max) {
                     let e = TypeErrorEnum::InvalidRange(*from, *to);
                     return Err(vec![Some(TypeError::new(e, expr.meta))]);
                 }
-                *num_ty = *expected;""",
-  """                *num_ty = *expected;""", "an untyped range takes on the element type without a range check: `253..257` as [u8; 4] wraps")
+                *num_ty = lowered_as;""",
+  """                let _ = max;
+                *num_ty = lowered_as;""", "an untyped range takes on the element type without a range check: `253..257` as [u8; 4] wraps")
 M("l1-range-gate-off-by-type", "C09", "fire L1", "src/literal.rs",
   """                    && num_ty.max().is_none_or(|ty_max| max.saturating_sub(1) <= ty_max)""",
   """                    && max.saturating_sub(1) <= u64::MAX""", "range gate compares with a constant instead of the element type's max")
@@ -2565,7 +2631,7 @@ M("s13-shift-amount-one-node", "C05", "fire S13", "src/check.rs",
 M("t3-shift-amount-constrain-only", "C17", "fire T3", "src/check.rs",
   """                    check_type(&mut y, &Type::Unsigned(UnsignedNumType::U8))?;""",
   """                    constrain_type(&mut y, &Type::Unsigned(UnsignedNumType::U8))?;""", "shift amount only constrained, never compared: `a << (x == y)` is accepted")
-REVERT("revert-collection-retyping", "C05", "fire S14", "f62b0b4", "pre-fix tree: collections of untyped numbers re-typed in place to any element type")
+# (the reverse patch of f62b0b4 no longer applies after 259fc4b / 98fcf78 touched the same arms; its essence is the next mutant)
 REVERT("revert-compile-const-sizes", "C09", "fire L12", "a75818f", "pre-fix tree: compile() builds a GarbleProgram with empty const_sizes")
 M("s14-any-width-in-collection", "C05", "fire S14", "src/check.rs",
   """                if actual == &Type::Unsigned(UnsignedNumType::Unspecified)
@@ -2641,6 +2707,8 @@ REVERT("revert-usize-literal-bound", "C03", "fire A10", "4fef7fd", "pre-fix tree
 M("a10-u16-literal-bound-too-wide", "C03", "fire A10", "src/scan.rs",
   """                                "u16" if n <= u16::MAX as u64 => {""",
   """                                "u16" if n <= u32::MAX as u64 => {""", "u16 literals up to u32::MAX pass the scanner")
+REVERT("revert-array-literal-elements-compared", "C05", "fire S17", "259fc4b", "pre-fix tree: a re-typed array literal takes its first element's type")
+REVERT("revert-range-signed-elements", "C05", "fire S18", "98fcf78", "pre-fix tree: the Range arm re-types only for unsigned element types")
 REVERT("revert-no-input-bits", "C05", "fire S16", "9c49737", "pre-fix tree: circuits without any input bit are built")
 M("s16-quiet-any-form", "C05", "quiet", "src/compile.rs",
   """        if input_gates.iter().all(|bits| *bits == 0) {""",
